@@ -39,6 +39,15 @@ def _eval(P, fn, expr, env):
     return v
 
 
+def _inside(n, root):
+    x = n
+    while x is not None:
+        if x is root:
+            return True
+        x = x.parent
+    return False
+
+
 def run(ctx):
     P = ctx.P
     ctx.clause("C17.1 reader level-contribution table and subtree consumption")
@@ -58,113 +67,8 @@ def run(ctx):
                   ("CARQUET_REPETITION_REPEATED", REP)):
         if enumv.get(nm) != v:
             raise AnalysisBroken("repetition enum changed: %s" % nm)
-    pn = [p["n"] for p in tr.params]
-    # locals initialised from the def/rep parameters
-    defl = repl = None
-    for n in tr.body.walk():
-        if n.k == "DeclStmt":
-            for d, init in zip(n.get("decls", []), n.c):
-                if init is None:
-                    continue
-                x = init.strip_casts()
-                if x.k == "DeclRefExpr" and x.get("dk") == "param":
-                    if pn.index(x.name) == 2:
-                        defl = d["d"]
-                    elif pn.index(x.name) == 3:
-                        repl = d["d"]
-    if defl is None or repl is None:
-        raise AnalysisBroken("traverse_schema_recursive: level accumulators not found")
-    sws = [s for s in find_switches(tr) if "repetition" in src(s.c[-2])]
-    if len(sws) != 1:
-        raise AnalysisBroken("traverse_schema_recursive: switch over the repetition type not found")
-    table, order = switch_table(sws[0])
-
-    def incs(stmts):
-        d = r = 0
-        other = False
-        for s in stmts:
-            for x in s.walk():
-                if x.k == "UnaryOperator" and x.op in ("++",):
-                    t = x.c[0].strip()
-                    if t.get("d") == defl:
-                        d += 1
-                    elif t.get("d") == repl:
-                        r += 1
-                    else:
-                        other = True
-                elif x.k == "CompoundAssignOperator" and x.op == "+=":
-                    t = x.c[0].strip()
-                    k = x.c[1].cv
-                    if t.get("d") == defl and k is not None:
-                        d += k
-                    elif t.get("d") == repl and k is not None:
-                        r += k
-                    else:
-                        other = True
-                elif is_assign(x) and x.op == "=" and x.c[0].strip().get("d") in (defl, repl):
-                    other = True
-        return d, r, other
-    for nm, val in (("CARQUET_REPETITION_REQUIRED", REQ), ("CARQUET_REPETITION_OPTIONAL", OPT),
-                    ("CARQUET_REPETITION_REPEATED", REP)):
-        arm = table.get(nm, table.get("default"))
-        d, r, other = incs(arm) if arm is not None else (0, 0, False)
-        ctx.ob("R5.spec", "level-table|%s:%s|%s" % (FR, tr.name, nm), P.where(sws[0]),
-               "%s contributes (def,rep) = %s" % (nm, WANT[val]), (d, r) == WANT[val] and not other,
-               "code adds (%d,%d)" % (d, r))
-    darm = table.get("default")
-    if darm is not None:
-        d, r, other = incs(darm)
-        ctx.ob("R5.spec", "level-table|%s:%s|default" % (FR, tr.name), P.where(sws[0]),
-               "an unknown repetition value contributes nothing", (d, r) == (0, 0) and not other)
-    # the switch is the only writer of the accumulators
-    writers = [x for x in tr.body.walk() if (x.k == "UnaryOperator" and x.op in ("++", "--") or
-                                             x.k == "CompoundAssignOperator" or (is_assign(x) and x.op == "="))
-               and x.c[0].strip().get("d") in (defl, repl)]
-    inside = all(any(a is sws[0] for a in w.ancestors()) for w in writers)
-    ctx.ob("R5.spec", "level-writers|%s:%s" % (FR, tr.name), P.where(tr.body),
-           "the level accumulators change only inside the repetition table", inside)
-    # guard: the table applies only when has_repetition
-    # recursion passes the accumulated pair
-    rec = tr.calls("traverse_schema_recursive")
-    ctx.floor("traverse_schema_recursive recursive calls", len(rec), 1)
-    for c in rec:
-        a = c.args()
-        ok = a[2].strip_casts().get("d") == defl and a[3].strip_casts().get("d") == repl
-        ctx.ob("R5.spec", "level-pass|%s:%s" % (FR, tr.name), P.where(c),
-               "children receive the accumulated (def, rep) of their parent", ok, src(c)[:100])
-        # next_idx = traverse(ctx, next_idx, ...)
-        p = c.parent
-        while p is not None and not is_assign(p):
-            p = p.parent
-        oki = p is not None and src(p.c[0]) == src(a[1])
-        ctx.ob("R5.spec", "subtree-consume|%s:%s" % (FR, tr.name), P.where(c),
-               "each child starts where the previous subtree ended (idx = walk(idx))", oki)
-    # leaf stores
-    st = {}
-    for a in tr.body.walk():
-        if is_assign(a) and a.c[0].strip().k == "ArraySubscriptExpr":
-            m = [x.name for x in a.c[0].walk() if x.k == "MemberExpr"]
-            for nm in ("max_def", "max_rep", "leaf_indices"):
-                if nm in m:
-                    st[nm] = a
-    ok = all(k in st for k in ("max_def", "max_rep", "leaf_indices")) and \
-        st["max_def"].c[1].strip_casts().get("d") == defl and st["max_rep"].c[1].strip_casts().get("d") == repl and \
-        st["leaf_indices"].c[1].strip_casts().k == "DeclRefExpr" and st["leaf_indices"].c[1].strip_casts().name == pn[1]
-    ctx.ob("R5.spec", "leaf-store|%s:%s" % (FR, tr.name), P.where(tr.body),
-           "a leaf records (accumulated def, accumulated rep, its element index)", ok)
-    # same slot for the three arrays
-    if ok:
-        idx = set(src(st[k].c[0].strip().c[1]) for k in st)
-        ctx.ob("R5.spec", "leaf-slot|%s:%s" % (FR, tr.name), P.where(tr.body),
-               "the three per-leaf arrays are written at the same slot", len(idx) == 1, str(idx))
-    # leaf return idx+1
+    _walk_table(ctx, tr, enumv)
     leaf_if = [n for n in tr.body.walk() if n.k == "IfStmt" and "num_children" in src([x for x in n.c if x is not None][0])]
-    okr = False
-    if leaf_if:
-        rets = [r for r in [x for x in leaf_if[0].c if x is not None][1].walk() if r.k == "ReturnStmt"]
-        okr = len(rets) == 1 and Canon(tr)(rets[0].c[0]) in (("bin", "+", ("int", 1), ("param", 1, "int32_t")),
-                                                              ("bin", "+", ("param", 1, "int32_t"), ("int", 1)))
-    ctx.ob("R5.spec", "leaf-return|%s:%s" % (FR, tr.name), P.where(tr.body), "a leaf consumes exactly one element", okr)
     # compute_levels root
     cl = P.fn("compute_levels", FR)
     rc = cl.calls("traverse_schema_recursive")
@@ -173,37 +77,67 @@ def run(ctx):
     ctx.ob("R5.spec", "root-start|%s:compute_levels" % FR, P.where(cl.body),
            "the walk starts at element 1 with levels (0,0) (the root contributes nothing)", okroot and init1)
 
-    # ---- (2) sibling level expressions, exhaustively over the three repetition values
-    sites = []
+    # ---- (2) sibling level expressions, exhaustively over the three repetition values. A level may be
+    # stored by one expression or by several guarded stores (ternary vs if/else chain): the stores to the
+    # level slot are collected with their enclosing conditions, evaluated for each repetition value, and
+    # the last store whose guards hold decides
+    groups = {}
     ac = P.fn("carquet_schema_add_column", SC)
     for a in ac.body.walk():
         if is_assign(a) and a.c[0].strip().k == "ArraySubscriptExpr":
             m = [x.name for x in a.c[0].walk() if x.k == "MemberExpr"]
             if "max_def_levels" in m:
-                sites.append((ac, a.c[1], "def", "repetition"))
+                groups.setdefault((ac.name, "def"), (ac, "repetition", []))[2].append(a)
             if "max_rep_levels" in m:
-                sites.append((ac, a.c[1], "rep", "repetition"))
+                groups.setdefault((ac.name, "rep"), (ac, "repetition", []))[2].append(a)
     wi = P.fn("add_column_internal", FW)
     for a in wi.body.walk():
         if is_assign(a) and a.c[0].strip().k == "MemberExpr":
             if a.c[0].strip().name == "max_def_level":
-                sites.append((wi, a.c[1], "def", "repetition"))
+                groups.setdefault((wi.name, "def"), (wi, "repetition", []))[2].append(a)
             if a.c[0].strip().name == "max_rep_level":
-                sites.append((wi, a.c[1], "rep", "repetition"))
+                groups.setdefault((wi.name, "rep"), (wi, "repetition", []))[2].append(a)
+    nsites = sum(len(g[2]) for g in groups.values())
+    for (fname, which), (fn, pname, stores) in sorted(groups.items()):
+        for nm, val in (("REQUIRED", REQ), ("OPTIONAL", OPT), ("REPEATED", REP)):
+            env = {p_["d"]: val for p_ in fn.params if p_["n"] == pname}
+            got = None
+            unknown = False
+            for a in sorted(stores, key=lambda x: x.i):
+                active = True
+                child = a
+                for anc in a.ancestors():
+                    if anc.k == "IfStmt":
+                        kids = [x for x in anc.c if x is not None]
+                        v = _eval(P, fn, kids[0], env)
+                        inthen = _inside(child, kids[1])
+                        if v is None:
+                            unknown = True
+                        elif bool(v) != inthen:
+                            active = False
+                    child = anc
+                if active and not unknown:
+                    v = _eval(P, fn, a.c[1], env)
+                    if v is None:
+                        unknown = True
+                    else:
+                        got = v
+            want = WANT[val][0 if which == "def" else 1]
+            key = "sibling-level|%s:%s|%s|%s" % (P.rel(fn.file), fn.name, which, nm)
+            if unknown or got is None:
+                ctx.inconclusive("R5.siblings", key, P.where(stores[0]), "level stores not evaluable for this repetition")
+            else:
+                ctx.ob("R5.siblings", key, P.where(stores[0]),
+                       "%s: max_%s for a flat %s leaf is %d (same table as the reader)" % (fn.name, which, nm, want),
+                       got == want, "code gives %d" % got)
+    sites = []
     for nm, which in (("carquet_schema_node_max_def_level", "def"), ("carquet_schema_node_max_rep_level", "rep")):
         g = P.fn(nm, SC)
         sites.append((g, g.returns()[0].c[0], which, None))
-    ctx.floor("C17 sibling level expressions", len(sites), 6)
+    ctx.floor("C17 sibling level expressions", nsites + len(sites), 6)
     for fn, expr, which, pname in sites:
         for nm, val in (("REQUIRED", REQ), ("OPTIONAL", OPT), ("REPEATED", REP)):
-            env = {}
-            if pname is not None:
-                for p in fn.params:
-                    if p["n"] == pname:
-                        env[p["d"]] = val
-                got = _eval(P, fn, expr, env)
-            else:
-                got = _eval_member(P, fn, expr, "repetition_type", val)
+            got = _eval_member(P, fn, expr, "repetition_type", val)
             want = WANT[val][0 if which == "def" else 1]
             key = "sibling-level|%s:%s|%s|%s" % (P.rel(fn.file), fn.name, which, nm)
             if got is None:
@@ -410,3 +344,79 @@ def leaf_predicate_rule(ctx, rule="R5.siblings"):
     ctx.ob(rule, "leaf-predicate-extent|%s:count_leaves/traverse" % FR, P.where(c2[0]),
            "the arrays allocated for count_leaves() leaves are filled by a walk that decides 'leaf' by the same predicate",
            t1 == t2, "%s / %s" % (show(t1), show(t2)))
+
+
+def _walk_table(ctx, tr, enumv):
+    """C17.1 by abstract execution of the walk on the cases that define its table: a leaf of each
+    repetition (with and without the has_repetition flag) under given ancestor levels; a group of each
+    repetition over a REQUIRED leaf (accumulation and hand-down); two sibling leaves (no inheritance
+    between siblings, consecutive slots); a group followed by a sibling leaf (exact subtree consumption).
+    The element array is abstract state (only repetition, child count and flags are given); nothing else
+    of the file is modelled."""
+    from ..rules import sem
+    P = ctx.P
+    co = sem.field_offsets(P, "schema_traverse_ctx_t") if "schema_traverse_ctx_t" in P.records else None
+    if co is None:
+        for name, r in P.records.items():
+            if set(f["n"] for f in r["fields"]) >= {"elements", "max_def", "max_rep", "leaf_indices", "leaf_idx"}:
+                co = {f["n"]: f["off"] // 8 for f in r["fields"]}
+    eo = sem.field_offsets(P, "parquet_schema_element")
+    esz = P.record("parquet_schema_element")["size"]
+    if co is None or not esz:
+        raise AnalysisBroken("schema walk context / element record not found")
+
+    def run(elems, d0, r0, start=1):
+        """elems: list of (repetition or None, num_children) for elements 1..n (element 0 is the root)"""
+        heap0 = {("ctx", co["elements"]): sem.Ptr("el", 0, esz), ("ctx", co["num_elements"]): len(elems) + 1,
+                 ("ctx", co["max_def"]): sem.Ptr("md", 0, 2), ("ctx", co["max_rep"]): sem.Ptr("mr", 0, 2),
+                 ("ctx", co["leaf_indices"]): sem.Ptr("li", 0, 4), ("ctx", co["leaf_idx"]): 0}
+        for i, (rep, nch) in enumerate(elems, 1):
+            base = i * esz
+            heap0[("el", base + eo["has_repetition"])] = 0 if rep is None else 1
+            heap0[("el", base + eo["repetition_type"])] = 0 if rep is None else rep
+            heap0[("el", base + eo["num_children"])] = nch
+            if "has_num_children" in eo:
+                heap0[("el", base + eo["has_num_children"])] = 1
+        ret, ev, heap = sem.run(P, tr, [sem.Ptr("ctx", 0, 1), start, d0, r0], heap0=heap0, max_forks=8)
+        n = heap.get(("ctx", co["leaf_idx"]))
+        leaves = [(heap.get(("md", 2 * k)), heap.get(("mr", 2 * k)), heap.get(("li", 4 * k))) for k in range(n if isinstance(n, int) else 0)]
+        return ret, leaves
+    C = {REQ: (0, 0), OPT: (1, 0), REP: (1, 1), None: (0, 0)}
+    names = {REQ: "REQUIRED", OPT: "OPTIONAL", REP: "REPEATED", None: "no repetition flag"}
+    cases = 0
+    try:
+        for rep in (REQ, OPT, REP, None):
+            for d0, r0 in ((0, 0), (2, 1)):
+                cases += 1
+                ret, leaves = run([(rep, 0)], d0, r0)
+                want = [(d0 + C[rep][0], r0 + C[rep][1], 1)]
+                ctx.ob("R5.spec", "level-table|%s:%s|leaf %s under (%d,%d)" % (FR, tr.name, names[rep], d0, r0), P.where(tr.body),
+                       "a %s leaf under ancestor levels (%d,%d) records %s and consumes one element" % (names[rep], d0, r0, want[0]),
+                       leaves == want and ret == 2, "records %s, returns %s" % (leaves, ret))
+        for rep in (REQ, OPT, REP):
+            cases += 1
+            ret, leaves = run([(rep, 1), (REQ, 0)], 0, 0)
+            want = [(C[rep][0], C[rep][1], 2)]
+            ctx.ob("R5.spec", "level-pass|%s:%s|group %s" % (FR, tr.name, names[rep]), P.where(tr.body),
+                   "a %s group hands its accumulated levels %s down to its child and returns past its subtree" % (names[rep], want[0][:2]),
+                   leaves == want and ret == 3, "records %s, returns %s" % (leaves, ret))
+        # siblings: walked one after the other from the same parent levels
+        cases += 1
+        r1, l1 = run([(OPT, 0), (REP, 0)], 0, 0, start=1)
+        r2, l2 = run([(OPT, 0), (REP, 0)], 0, 0, start=2)
+        ctx.ob("R5.spec", "subtree-consume|%s:%s|siblings" % (FR, tr.name), P.where(tr.body),
+               "sibling leaves do not inherit from each other (each is walked from its parent's levels)",
+               l1 == [(1, 0, 1)] and r1 == 2 and l2 == [(1, 1, 2)] and r2 == 3, "%s / %s" % (l1, l2))
+        cases += 1
+        ret, leaves = run([(REP, 2), (REQ, 0), (OPT, 0)], 0, 0)
+        ctx.ob("R5.spec", "subtree-consume|%s:%s|two children" % (FR, tr.name), P.where(tr.body),
+               "a group with two children walks both, in order, into consecutive slots, and returns past them",
+               leaves == [(1, 1, 2), (2, 1, 3)] and ret == 4, "records %s, returns %s" % (leaves, ret))
+        cases += 1
+        ret, leaves = run([(OPT, 5), (REQ, 0)], 0, 0)
+        ctx.ob("R5.spec", "subtree-consume|%s:%s|short list" % (FR, tr.name), P.where(tr.body),
+               "a child count larger than the remaining elements stops at the end of the element list",
+               leaves == [(1, 0, 2)] and ret == 3, "records %s, returns %s" % (leaves, ret))
+    except sem.Inconclusive as ex:
+        ctx.inconclusive("R5.spec", "level-table|%s:%s" % (FR, tr.name), P.where(tr.body), "abstract execution of the walk", str(ex))
+    ctx.floor("C17 walk table cases", cases, 14)
